@@ -838,7 +838,8 @@ pub fn choose_optimal_strategy_signed(values: &[i64]) -> VarIntStrategy {
     // Analyze data characteristics
     let has_negative = values.iter().any(|&v| v < 0);
     let is_sorted = values.windows(2).all(|w| w[0] <= w[1]);
-    let small_range = values.iter().all(|&v| v.abs() < 256);
+    // `unsigned_abs`: `i64::MIN.abs()` overflows (a panic in checked builds)
+    let small_range = values.iter().all(|&v| v.unsigned_abs() < 256);
     
     // Choose strategy based on characteristics - prioritize sorted sequences even with negative values
     if is_sorted && values.len() > 5 {  // Delta for sorted sequences with sufficient length
